@@ -349,3 +349,13 @@ mod tests {
         assert_eq!(STATIC_TMAX.capacity(), 3);
     }
 }
+
+#[cfg(dashu_verif)]
+impl UBig {
+    /// Verification hook (read-only): (raw signed capacity, length in words, stored inline?).
+    #[doc(hidden)]
+    #[inline]
+    pub fn verif_repr_probe(&self) -> (isize, usize, bool) {
+        self.0.verif_repr_probe()
+    }
+}
